@@ -27,7 +27,7 @@ SEQ_NOTE = ("Trusted: the harness's reference model (RFC 6962 tree, tile layout,
             "(65k in the thorough tier). Sampling, not exhaustive.")
 
 ENGINES = [
-    {"name": "seq", "path": "overlay/verifsim/seq", "serves_properties": ["C01", "C02", "C03", "C04"],
+    {"name": "seq", "path": "overlay/verifsim/seq", "serves_properties": ["C01", "C02", "C03", "C04", "C06", "C07", "C08", "C11", "C17"],
      "kind_free_text": "deterministic simulator: real ctlog.Log instances under a seeded scheduler that owns storage, lock store, clock, crashes"},
 ]
 
@@ -48,8 +48,26 @@ PROPS = {
         expect_probes=["effect.publish"]),
 }
 
+PROPS.update({
+    "C06": dict(SEQ,
+        level_text="Two or three real Log instances with the same key on one simulated lock store and storage, started at arbitrary steps (also while another instance is between its CAS and its uploads, so that recovery runs concurrently), interleaved at storage/lock-operation granularity with slow-node faults; oracle: no fork and append-only history over the union of all checkpoints, a CAS loser stops with the fatal error, acknowledges nothing from that round and commits nothing afterwards; at the end of every run eleven start-up states built from the final durable state (lock behind storage, same size/different root, foreign name/key, missing checkpoint, lock ahead without staging, checkpoint from the future, CreateLog over an existing log) must be refused while the unmodified twin loads.",
+        expect_probes=["cas.lost", "probe.twin", "probe.lock-behind-storage", "fault.slow"]),
+    "C07": dict(SEQ,
+        level_text="Duplicate submissions (same item resubmitted, client retries of failed submissions) in every phase of a round, with cache faults between incarnations (deleted, rolled back to a snapshot, converted to the legacy 128-bit table); oracle: within a cache epoch all acknowledgements of an entry carry one (index, timestamp); an entry that is pending or acknowledged in the epoch is never admitted again; leaves per entry <= admissions minus evictions; every acknowledgement from any cache source satisfies the C02 storage oracle.",
+        expect_probes=["fault.cache.delete", "fault.cache.rollback", "fault.cache.legacy"]),
+    "C08": dict(SEQ,
+        level_text="After a simulated prefix, objects are deleted, truncated, bit-flipped, extended, swapped or rolled back (biased towards the right-edge tiles, checkpoint and staging bundles that recovery reads), combined with crashes, restarts and further sequencing; oracle: every checkpoint committed to the lock store afterwards has root MTH(pre-tamper leaves ++ entries sunlight itself staged afterwards), those entries are submitted ones with the right indexes, and every acknowledgement names such an index. Refusing to load or stopping is accepted.",
+        expect_probes=["fault.tamper.flip", "fault.tamper.delete", "tamper.commit.checked"]),
+    "C11": dict(SEQ,
+        level_text="Signing half: every checkpoint committed in the simulated histories (all sizes, roots and timestamps they reach) must open with the public verifier, carry the ML-DSA cosignature, embed the round's clock reading and verify with ct-go's independent verifier over the rebuilt tree head; equal tree heads give equal signature bytes. Strictness half: each committed checkpoint is corrupted by 14 structure-aware mutators and whenever sunlight's note verifier accepts, the independent verifier must accept the same (origin,size,root,timestamp). The strictness half is a function of bytes: simulation only supplies the inputs; stated here as exploration over inputs.",
+        expect_probes=["c11.mutation.timestamp", "c11.mutation.blob-trailing-byte"]),
+    "C17": dict(SEQ,
+        level_text="Arrival orders of high/low-priority/duplicate submissions against pool sizes 1..12 with ticks, failing rounds, stops and the read-only date crossed on the fake clock; the eviction victim is chosen by the scheduler (the low-priority map is narrowed to one candidate for the step). Oracle: occupancy never above the limit, rate-limit and eviction rules per admission, exactly one eviction per high-priority admission at a full pool, exactly one outcome per submitter, nobody left waiting after a stop, nothing acknowledged or signed after a stop, progress within a bounded number of steps once faults stop.",
+        expect_probes=["evict.admission", "evict.narrowed", "stop", "sunset.stopped"]),
+})
+
 NOT_APPLICABLE = {
     "C10": "pure function of its input (codec bijections): no schedule, clock, fault, I/O or second party for a simulator to control; deciding it is input generation (property-based testing), which is outside this technique. See DESIGN.md §6.",
 }
-for _p in ["C05", "C06", "C07", "C08", "C09", "C11", "C12", "C13", "C14", "C15", "C16", "C17", "C18", "C19", "C20"]:
+for _p in ["C05", "C09", "C12", "C13", "C14", "C15", "C16", "C18", "C19", "C20"]:
     NOT_APPLICABLE[_p] = "not claimed yet: the simulator for this property is still being built (see DESIGN.md §5 for the plan)"
